@@ -43,6 +43,46 @@ pub fn acceptor(cert: &str) -> SslAcceptor {
     b.build()
 }
 
+/// An acceptor presenting a certificate minted NOW for good.test / 127.0.0.1, signed by the
+/// fixture CA, whose validity period is [now + not_before_s, now + not_after_s] (the key is the
+/// fixture `good` key): for validity-window cases relative to the current time.
+pub fn acceptor_minted(not_before_s: i64, not_after_s: i64) -> SslAcceptor {
+    use openssl::asn1::Asn1Time;
+    use openssl::bn::{BigNum, MsbOption};
+    use openssl::hash::MessageDigest;
+    use openssl::pkey::PKey;
+    use openssl::x509::extension::{BasicConstraints, ExtendedKeyUsage, SubjectAlternativeName};
+    use openssl::x509::{X509Builder, X509NameBuilder, X509};
+    let dir = cert_dir();
+    let ca_cert = X509::from_pem(&std::fs::read(dir.join("ca.cert.pem")).expect("ca cert")).expect("ca cert pem");
+    let ca_key = PKey::private_key_from_pem(&std::fs::read(dir.join("ca.key.pem")).expect("ca key")).expect("ca key pem");
+    let key = PKey::private_key_from_pem(&std::fs::read(dir.join("good.key.pem")).expect("good key")).expect("good key pem");
+    let now = std::time::SystemTime::now().duration_since(std::time::UNIX_EPOCH).expect("clock").as_secs() as i64;
+    let mut name = X509NameBuilder::new().expect("name");
+    name.append_entry_by_text("CN", "minted").expect("cn");
+    let name = name.build();
+    let mut b = X509Builder::new().expect("x509 builder");
+    b.set_version(2).expect("version");
+    let mut serial = BigNum::new().expect("bn");
+    serial.rand(100, MsbOption::MAYBE_ZERO, false).expect("serial");
+    b.set_serial_number(&serial.to_asn1_integer().expect("serial int")).expect("serial");
+    b.set_subject_name(&name).expect("subject");
+    b.set_issuer_name(ca_cert.subject_name()).expect("issuer");
+    b.set_pubkey(&key).expect("pubkey");
+    b.set_not_before(&Asn1Time::from_unix(now + not_before_s).expect("nb")).expect("nb");
+    b.set_not_after(&Asn1Time::from_unix(now + not_after_s).expect("na")).expect("na");
+    b.append_extension(BasicConstraints::new().build().expect("bc")).expect("bc");
+    b.append_extension(ExtendedKeyUsage::new().server_auth().build().expect("eku")).expect("eku");
+    let san = SubjectAlternativeName::new().dns("good.test").ip("127.0.0.1").build(&b.x509v3_context(Some(&ca_cert), None)).expect("san");
+    b.append_extension(san).expect("san");
+    b.sign(&ca_key, MessageDigest::sha256()).expect("sign");
+    let cert = b.build();
+    let mut a = SslAcceptor::mozilla_intermediate_v5(SslMethod::tls()).expect("acceptor builder");
+    a.set_private_key(&key).expect("key");
+    a.set_certificate(&cert).expect("cert");
+    a.build()
+}
+
 /// Serve one TLS session on `stream`: handshake, read one request, answer, close.
 pub fn serve_tls<S: Read + Write + std::fmt::Debug>(acceptor: &SslAcceptor, stream: S, response: &[u8]) -> ServerResult {
     let mut res = ServerResult::default();
